@@ -42,9 +42,32 @@ STATE_PREDS = {
 }
 # a deviation of the environment kind (depends on the wall clock, not on the command sequence): go-imap-sql seeds
 # the generator of UIDVALIDITY values with the current second, so commands run within one second draw the same
-# values.  Not modelled as a switch of the design; matched by its two predicates (UidReused only together with
-# UvRecycled in the same trace).
+# values.  Not modelled as a switch of the design; matched by its two predicates (UidReused only in a trace in which
+# a mailbox was really created with a UIDVALIDITY value seen before: UvRecycled or the diagnostic UvCollision).
 ENV_DEV = "UvSeedSecond"
+# a second finding that is matched by history instead of a switch of the model (it depends on which of two equally
+# named mailboxes of different accounts was created first, which a snapshot does not show): removing a mailbox whose
+# name also exists in another account leaves the bodies of its messages in the message store (BlobCount).
+LEAK_DEV = "MboxRemoveLeak"
+
+
+def leak_steps(evs):
+    """seq numbers of the successful `imap-mboxes remove` commands whose mailbox name another account has too"""
+    out, prev = set(), None
+    for e in evs:
+        if e["e"] == "Cfg":
+            prev = e["snap"]
+        if e["e"] != "Cmd":
+            continue
+        c = e["c"]
+        if c["k"] == "MboxRemove" and e["res"] == "ok" and prev is not None:
+            gone = [m for m in prev["mboxes"] if m["name"] == c["mb"] and
+                    not any(n["acct"] == m["acct"] and n["name"] == m["name"] for n in e["snap"]["mboxes"])]
+            for m in gone:
+                if any(o["name"] == m["name"] and o["acct"] != m["acct"] for o in prev["mboxes"]):
+                    out.add(e["seq"])
+        prev = e["snap"]
+    return out
 
 CFG = """SPECIFICATION %(spec)s
 CONSTANTS
@@ -103,7 +126,7 @@ ALL_RANGES = ["1", "2", "3", "1:2", "2:3", "*", "1:*", "2:*"]
 # ---- exhaustive model checking of the design (Devs = {}) --------------------------------------------
 MC_QUICK = {
     "mc-creds": dict(kinds=CREDS, spell=ALL_SPELL, pws=["p1", "p2"], confirms=["flag", "y", "n"], maxsteps=4),
-    "mc-acct": dict(kinds=ACCT + MBOX, spell=["a", "aC", "aW", "b"], confirms=["flag", "n"], sus=[False, True],
+    "mc-acct": dict(kinds=ACCT + MBOX + ["Deliver"], spell=["a", "aC", "aW", "b"], confirms=["flag", "n"], sus=[False, True],
                     mnames=["INBOX", "A", "A.B", "Junk"], specials=["none", "Junk"], maxsteps=3),
     "mc-tree": dict(kinds=MBOX + ["AcctRemove", "AcctCreate"], spell=["a"], confirms=["flag", "n"],
                     mnames=["INBOX", "A", "A.B", "a.B", "C", "C.B", ""], preset="treemsgs", maxsteps=2),
@@ -113,7 +136,7 @@ MC_QUICK = {
 }
 MC_THOROUGH = {
     "mc-creds": dict(kinds=CREDS, spell=ALL_SPELL, pws=["p1", "p2"], confirms=["flag", "y", "n"], maxsteps=6),
-    "mc-acct": dict(kinds=ACCT + MBOX, spell=["a", "aC", "aW", "b", "x", ""], confirms=["flag", "y", "n"],
+    "mc-acct": dict(kinds=ACCT + MBOX + ["Deliver"], spell=["a", "aC", "aW", "b", "x", ""], confirms=["flag", "y", "n"],
                     sus=[False, True], mnames=["INBOX", "A", "A.B", "Junk", ""], specials=["none", "Junk"], maxsteps=3),
     "mc-tree": dict(kinds=MBOX + ["AcctRemove", "AcctCreate"], spell=["a", "aC"], confirms=["flag", "n"],
                     mnames=["INBOX", "A", "A.B", "a.B", "C", "C.B", "A.B.C", "B", ""], preset="treemsgs", maxsteps=3),
@@ -143,8 +166,12 @@ FAMILIES = {
     "creds3": dict(kinds=CREDS, spell=["a", "aW"], pws=["p1", "p2"], confirms=["flag", "n"], maxsteps=3),
     "acct": dict(kinds=ACCT + ["MboxCreate"], spell=["a", "aC", "aW", "x", ""], confirms=["flag", "y", "n"],
                  sus=[False, True], mnames=["A.B"], maxsteps=2),
-    "acct3": dict(kinds=ACCT + ["MsgAdd"], spell=["a", "aC"], confirms=["flag", "n"], sus=[False, True],
+    "acct3": dict(kinds=ACCT + ["MsgAdd", "Deliver"], spell=["a", "aC"], confirms=["flag", "n"], sus=[False, True],
                   mnames=["INBOX", "Junk"], addflags=[["S"]], maxsteps=3),
+    "deliver": dict(kinds=ACCT + ["Deliver"], spell=["a", "aC", "aW", "b", "x"], confirms=["flag"], maxsteps=3),
+    "special": dict(kinds=["MboxCreate", "MboxRename", "MboxRemove"], spell=["a"], confirms=["flag"],
+                    mnames=["Junk", "Trash", "A", "A.B"], specials=["none", "Junk", "Trash"], preset="acctsu",
+                    maxsteps=2),
     "mbox": dict(kinds=MBOX, spell=["a"], confirms=["flag", "n"], mnames=["INBOX", "A", "A.B", "a.B", "C", "C.B", ""],
                  specials=["none", "Junk"], preset="treemsgs", maxsteps=2),
     "msgs": dict(kinds=MSGS, spell=["a"], confirms=["flag", "y", "n"], mnames=["INBOX", "A", ""],
@@ -155,20 +182,23 @@ FAMILIES = {
                   preset="msgs", maxsteps=2),
     "flags2": dict(kinds=["MsgFlags"], spell=["a"], mnames=["INBOX"], flagsets=[["S"], ["F", "K"], ["S", "F"]],
                    ranges=["1", "1:*", "2"], uidmodes=[True], preset="msgs", maxsteps=2),
+    "two": dict(kinds=["MboxRemove", "MboxRename", "AcctRemove", "MsgRemove", "MsgCopy", "MsgMove", "Deliver"], spell=["a", "b", "bC"],
+                confirms=["flag"], mnames=["INBOX", "A", "C"], ranges=["1", "1:*"], uidmodes=[True], preset="two",
+                maxsteps=2),
     "life": dict(kinds=["AcctRemove", "AcctCreate", "MboxRemove", "MboxCreate", "MboxRename", "MsgAdd"], spell=["a"],
                  confirms=["flag"], mnames=["INBOX", "A", "B"], addflags=[[]], preset="msgs", maxsteps=3),
 }
-QUICK_PER_FAMILY = 14
+QUICK_PER_FAMILY = 12
 THOROUGH_FAMILY_CAP = 700
 QUICK_SIM = 30
 THOROUGH_SIM = 900
 
 SIMS = {
-    "sim-empty": dict(kinds=CREDS + ACCT + MBOX + MSGS, spell=["a", "aC", "aW", "b"], pws=["p1", "p2"],
+    "sim-empty": dict(kinds=CREDS + ACCT + MBOX + MSGS + ["Deliver"], spell=["a", "aC", "aW", "b"], pws=["p1", "p2"],
                       confirms=["flag", "y", "n"], sus=[False, True], mnames=["INBOX", "A", "A.B", "a.B", "Junk"],
                       specials=["none", "Junk"], flagsets=[["S"], ["F", "K"]], addflags=[[], ["S"]],
                       ranges=["1", "2", "1:2", "*", "2:*"], uidmodes=[True, False], preset="empty", maxsteps=12),
-    "sim-msgs": dict(kinds=MBOX + MSGS + ["AcctRemove", "AcctCreate"], spell=["a", "aC"], confirms=["flag", "n"],
+    "sim-msgs": dict(kinds=MBOX + MSGS + ["AcctRemove", "AcctCreate", "Deliver"], spell=["a", "aC"], confirms=["flag", "n"],
                      mnames=["INBOX", "A", "A.B", "a.B", "C"], flagsets=[["S"], ["F", "K"]],
                      addflags=[[], ["F"]], ranges=["1", "2", "1:2", "*", "1:*", "3"], uidmodes=[True, False],
                      preset="treemsgs", maxsteps=9),
@@ -185,10 +215,14 @@ def load_findings():
 
 
 def open_devs():
+    """deviation -> finding for the open findings; X10_CLOSED=dev1,dev2 (fix verification only) treats the named
+    deviations as closed for this run"""
+    closed = set(x for x in os.environ.get("X10_CLOSED", "").split(",") if x)
     out = {}
     for f in load_findings():
-        if f.get("status", "open") == "open" and f.get("match", {}).get("deviation"):
-            out[f["match"]["deviation"]] = f
+        d = f.get("match", {}).get("deviation")
+        if f.get("status", "open") == "open" and d and d not in closed:
+            out[d] = f
     return out
 
 
@@ -197,6 +231,8 @@ def build(ctx):
     out = os.path.join(ctx.work, "acctmgmtcheck.test")
     mf = os.path.join(ctx.work, "go.mod")
     txt = open(os.path.join(vlib.HARNESS, "go.mod")).read().replace("=> /repo", "=> " + ctx.repo)
+    if os.environ.get("X10_GOIMAPSQL"):      # fix verification: a patched copy of the dependency
+        txt += "\nreplace github.com/foxcpp/go-imap-sql => %s\n" % os.environ["X10_GOIMAPSQL"]
     open(mf, "w").write(txt)
     shutil.copy(os.path.join(ctx.repo, "go.sum"), os.path.join(ctx.work, "go.sum"))
     cmd = ["go1.26", "test", "-c", "-tags", "verif", "-modfile", mf, "-o", out, "./acctmgmtcheck"]
@@ -218,7 +254,7 @@ def nontrivial(bh):
     return len(ks) >= 2 or any(c["sp"] not in ("a", "b") for c in bh["hist"])
 
 
-def classify(recs, odevs):
+def classify(recs, odevs, evs=()):
     """-> ("ok"|"drift"|"finding"|"violation", violated predicate names, [(finding id, deviation)])"""
     viol = sorted(set(v["p"] for r in recs for v in r["viol"]))
     conform = [r for r in recs if not r["drift"]]
@@ -229,11 +265,16 @@ def classify(recs, odevs):
         used = set(r["used"])
         fids = set()
         names = set(v["p"] for v in r["viol"])
+        blobq = [v["q"] for v in r["viol"] if v["p"] == "BlobCount"]
+        leak_ok = LEAK_DEV in odevs and blobq and min(blobq) in leak_steps(evs)
         for v in r["viol"]:
             exp = [d for d in v["d"] if d in odevs and v["p"] in STEP_PREDS.get(d, ())]
             exp += [d for d in used if d in odevs and v["p"] in STATE_PREDS.get(d, ())]
-            if ENV_DEV in odevs and (v["p"] == "UvRecycled" or (v["p"] == "UidReused" and "UvRecycled" in names)):
+            if ENV_DEV in odevs and (v["p"] == "UvRecycled" or (
+                    v["p"] == "UidReused" and ("UvRecycled" in names or "UvCollision" in r.get("diag", [])))):
                 exp.append(ENV_DEV)
+            if v["p"] == "BlobCount" and leak_ok:
+                exp.append(LEAK_DEV)
             if not exp:
                 return "violation", viol, []
             fids |= set((odevs[d]["id"], d) for d in exp)
@@ -329,6 +370,9 @@ def run(ctx, replay):
     for e in events:
         full.setdefault(e["t"], []).append(e)
     keep = {"t", "seq", "e", "preset", "snap", "c", "res", "ez", "panic", "out"}
+    for e in events:
+        if e["e"] == "Cmd" and e["c"]["k"] == "Deliver":
+            e["ez"] = e["res"] == "ok"       # a delivery has no exit status
     slim = []
     for e in events:
         s = {k: v for k, v in e.items() if k in keep}
@@ -369,7 +413,7 @@ def run(ctx, replay):
             if any(not r["drift"] for r in recs):
                 raise vlib.Infra("binding self-test failed: %s trace was accepted" % selftest[t])
             continue
-        kind, viol, fids = classify(recs, odevs)
+        kind, viol, fids = classify(recs, odevs, full.get(t, ()))
         if kind == "ok":
             ok += 1
         elif kind == "drift":
